@@ -15,7 +15,7 @@ import (
 func init() {
 	register(&Property{
 		ID:      "C07",
-		Explain: "(1) The UTF-8 automaton is extracted by folding wsutil.decode itself over (state, byte) for every reachable state and all 256 byte values, with the utf8d table read through its (write-once) initialiser, and is proven language-equivalent to a reference DFA for Unicode Table 3-7 (no overlongs, no surrogates, nothing above U+10FFFF) by exhaustive product construction; the reject state is absorbing and coincides with the reference's dead state; every table index is in range. A change to the table or to the index arithmetic changes the extracted automaton. (2) UTF8Reader.Read is folded for 0..3 bytes read with decode as an uninterpreted step: the step is applied to p[0..n) in order with the carried (state, codep), state is written back on both exits, a reject returns ErrInvalidUTF8. Valid() is 'state == accept'. (3) Wiring in wsutil.Reader (folds shared with C04): the validating reader is installed iff CheckUTF8 and (text frame or continuation of a text message), control frames do not touch it, the DFA state survives fragment boundaries (resetFragment) and is cleared per message (reset), and validity is tested exactly at the end of the final fragment, where an invalid message yields ErrInvalidUTF8 and never io.EOF. When the message ends in an invalid state Read must report the validated prefix, not the full count (io.ReadFull, used by ReadMessage, drops an error that arrives with the last requested byte); UTF8Reader.Read must refresh Accepted() on every call, also when nothing was read. Discard and the helpers are part of this check (the automaton state must not survive a discarded message; readData / ReadMessage start from a pristine Reader). From the accepting state a shortcut for plain ASCII is allowed, but every byte that is not fed to the automaton must occur in a condition decided on the path (byte lanes are tracked through word loads and masks). The step function is taken in either shape: decode(state, codep, b) (codep, state), or the single function over a {state, codep} struct that reads utf8d (a value-receiver method such as next(b)). OnContinuation is handed the reader chain installed for Read (a callback that consumes the fragment passes through the validator). UTF8Reader.Reset returns every field to a new reader's value (C18.small-resets runs here).",
+		Explain: "(1) The UTF-8 automaton is extracted by folding wsutil.decode itself over (state, byte) for every reachable state and all 256 byte values, with the utf8d table read through its (write-once) initialiser, and is proven language-equivalent to a reference DFA for Unicode Table 3-7 (no overlongs, no surrogates, nothing above U+10FFFF) by exhaustive product construction; the reject state is absorbing and coincides with the reference's dead state; every table index is in range. A change to the table or to the index arithmetic changes the extracted automaton. (2) UTF8Reader.Read is folded for 0..3 bytes read with decode as an uninterpreted step: the step is applied to p[0..n) in order with the carried (state, codep), state is written back on both exits, a reject returns ErrInvalidUTF8. Valid() is 'state == accept'. (3) Wiring in wsutil.Reader (folds shared with C04): the validating reader is installed iff CheckUTF8 and (text frame or continuation of a text message), control frames do not touch it, the DFA state survives fragment boundaries (resetFragment) and is cleared per message (reset), and validity is tested exactly at the end of the final fragment, where an invalid message yields ErrInvalidUTF8 and never io.EOF. When the message ends in an invalid state Read must report the validated prefix, not the full count (io.ReadFull, used by ReadMessage, drops an error that arrives with the last requested byte); UTF8Reader.Read must refresh Accepted() on every call, also when nothing was read. Discard and the helpers are part of this check (the automaton state must not survive a discarded message; readData / ReadMessage start from a pristine Reader). From the accepting state a shortcut for plain ASCII is allowed, but every byte that is not fed to the automaton must occur in a condition decided on the path (byte lanes are tracked through word loads and masks). The step function is taken in either shape: decode(state, codep, b) (codep, state), or the single function over a {state, codep} struct that reads utf8d (a value-receiver method such as next(b)). OnContinuation is handed the reader chain installed for Read (a callback that consumes the fragment passes through the validator). UTF8Reader.Reset returns every field to a new reader's value (C18.small-resets runs here). The Read table includes the outcome in which the validator in front of the frame refuses the bytes just read: Read returns that very count with ErrInvalidUTF8 (not a count remembered from an earlier call).",
 		Trusted: []string{"go/ssa + go/types", "the checker's abstract evaluator", "the reference DFA written in the checker from Unicode Table 3-7"},
 		Assume:  []string{"the Accepted() bookkeeping and the interplay with transport errors are not decided"},
 		Run: func(c *Ctx) {
